@@ -229,7 +229,7 @@ Section U.
           end
       | GMap kt vt => unmarshal_map f kt vt cur ts
       | GAny | GIface _ => unmarshal_any f ts
-      | _ => UErr (length ts)            (* struct without atlas entry, unsupported kinds *)
+      | _ => match ts with [] => UStarved | _ => UErr (length ts) end   (* struct without atlas entry, unsupported kinds: fails when the value's first token arrives *)
       end
     end
   with unmarshal_any (fuel : nat) (ts : list token) : ures :=
@@ -286,7 +286,7 @@ Section U.
     | O => UFuel
     | S f =>
       match key_destringer kt with
-      | None => UErr (length ts)          (* Reset fails: reported on the token that started the value *)
+      | None => match ts with [] => UStarved | _ => UErr (length ts) end   (* Reset fails: reported on the token that started the value *)
       | Some destr =>
         match ts with
         | [] => UStarved
@@ -363,7 +363,7 @@ Section U.
       | EMapMorphism _ =>
           match strip_named (ae_type e) with
           | GMap kt vt => unmarshal_map f kt vt cur ts
-          | _ => UErr (length ts)
+          | _ => match ts with [] => UStarved | _ => UErr (length ts) end
           end
       end
     end
